@@ -446,8 +446,10 @@ func (s *Scorch) Close() (err error) {
 
 	// signal to async tasks we want to close
 	close(s.closeCh)
+	verifHook("close.begin", s)
 	// wait for them to close
 	s.asyncTasks.Wait()
+	verifHook("close.waited", s)
 	// now close the root bolt
 	if s.rootBolt != nil {
 		err = s.rootBolt.Close()
@@ -668,16 +670,19 @@ func (s *Scorch) prepareSegment(newSegment segment.Segment, ids []string,
 
 	introStartTime := time.Now()
 
+	verifHook("batch.send", s, introduction)
 	s.introductions <- introduction
 
 	// block until this segment is applied
 	err := <-introduction.applied
+	verifHook("batch.applied", s, introduction, err)
 	if err != nil {
 		return err
 	}
 
 	if introduction.persisted != nil {
 		err = <-introduction.persisted
+		verifHook("batch.persisted", s, introduction, err)
 	}
 
 	introTime := uint64(time.Since(introStartTime))
@@ -923,6 +928,7 @@ func (s *Scorch) AddEligibleForRemoval(epoch uint64) {
 	s.rootLock.Lock()
 	if s.root == nil || s.root.epoch != epoch {
 		s.eligibleForRemoval = append(s.eligibleForRemoval, epoch)
+		verifHook("eligible", s, epoch)
 	}
 	s.rootLock.Unlock()
 }
@@ -1097,8 +1103,10 @@ func (s *Scorch) CopyReader() index.CopyReader {
 				fileName = zapFileName(seg.id)
 			}
 			rv.parent.copyScheduled[fileName]++
+			verifHook("copy.scheduled", s, fileName)
 		}
 	}
+	verifHook("copy.open", s, rv)
 	s.rootLock.Unlock()
 	return rv
 }
